@@ -4,6 +4,7 @@ import (
 	"bytes"
 	"fmt"
 	"regexp"
+	"strings"
 	"sync"
 	"text/template"
 
@@ -19,6 +20,11 @@ var pool = sync.Pool{
 // Template helper functions
 
 var invalid *regexp.Regexp = regexp.MustCompile(`\W`)
+
+var (
+	vclStringReplacer = strings.NewReplacer(`%`, "%25", `"`, "%22")
+	lineFeedReplacer  = strings.NewReplacer("\r\n", " ", "\n", " ", "\r", " ")
+)
 
 var helperFuncs = template.FuncMap{
 	"printtype": func(dtype int) string {
@@ -37,6 +43,26 @@ var helperFuncs = template.FuncMap{
 	"sanitize": func(name string) string {
 		return invalid.ReplaceAllString(name, "_")
 	},
+	// Escape characters which terminate or are decoded inside a VCL double-quoted string:
+	// the parser ends a string at the first double quote and decodes %XX escapes
+	"vclstring": func(v any) string {
+		var s string
+		switch t := v.(type) {
+		case string:
+			s = t
+		case *string:
+			if t != nil {
+				s = *t
+			}
+		default:
+			s = fmt.Sprint(v)
+		}
+		return vclStringReplacer.Replace(s)
+	},
+	// Line comment must not contain line feeds, following lines would be treated as VCL
+	"oneline": func(s string) string {
+		return lineFeedReplacer.Replace(s)
+	},
 	"objectify": func(p Phase) string {
 		switch p {
 		case RequestPhase:
@@ -54,11 +80,12 @@ var helperFuncs = template.FuncMap{
 
 var dictionaryTemplate = template.Must(
 	template.New("dictionary").
+		Funcs(helperFuncs).
 		Parse(
 			`
 table {{ .Name }} STRING {
   {{- range .Items }}
-  "{{ .Key }}": "{{ .Value }}",
+  "{{ .Key | vclstring }}": "{{ .Value | vclstring }}",
   {{- end }}
 }
 `,
@@ -66,11 +93,12 @@ table {{ .Name }} STRING {
 
 var aclTemplate = template.Must(
 	template.New("acl").
+		Funcs(helperFuncs).
 		Parse(
 			`
 acl {{ .Name }} {
 	{{- range .Entries }}
-	{{ if .Negated }}!{{ end }}"{{ .Ip }}"{{ if .Subnet }}/{{ .Subnet }}{{ end }};{{ if .Comment }}  # {{ .Comment }}{{ end }}
+	{{ if .Negated }}!{{ end }}"{{ .Ip | vclstring }}"{{ if .Subnet }}/{{ .Subnet }}{{ end }};{{ if .Comment }}  # {{ .Comment | oneline }}{{ end }}
 	{{- end }}
 }
 `,
@@ -82,7 +110,7 @@ var backendTemplate = template.Must(
 		Parse(
 			`
 backend F_{{ .Name | sanitize }} {
-	{{ if .Address }}.host = "{{.Address}}";{{ end }}
+	{{ if .Address }}.host = "{{ .Address | vclstring }}";{{ end }}
 }
 `,
 		))
@@ -100,7 +128,7 @@ director {{ .Name | sanitize }} {{ .Type | printtype }} {
 	{{- end }}
 	.quorum = {{ .Quorum }}%;
 	{{- range .Backends }}
-	{ .backend = F_{{ . }}; .weight = 1; }
+	{ .backend = F_{{ . | sanitize }}; .weight = 1; }
 	{{- end }}
 }
 `,
